@@ -303,4 +303,14 @@ def broadcast(x, target):
     return x
 
 
-defjvp(anp.pad, lambda g, ans, array, width, mode, **kwargs: anp.pad(g, width, mode))
+def fwd_grad_pad(g, ans, array, width, mode, **kwargs):
+    if callable(mode) or mode in ("maximum", "minimum", "median"):
+        raise NotImplementedError("Forward-mode gradient of pad not implemented for mode={}".format(mode))
+    # the remaining modes are linear in the array: pad the tangent the same way. Options that select
+    # *which* entries are combined are kept; options that carry padding values (constant_values,
+    # end_values) contribute nothing to the tangent.
+    shape_kwargs = {k: v for k, v in kwargs.items() if k in ("stat_length", "reflect_type")}
+    return anp.pad(g, width, mode, **shape_kwargs)
+
+
+defjvp(anp.pad, fwd_grad_pad)
